@@ -2,6 +2,7 @@ package main
 
 import (
 	"fmt"
+	"regexp"
 	"go/constant"
 	"go/token"
 	"go/types"
@@ -150,6 +151,23 @@ func (ce *cenv) ident(name string) Term {
 		return Term{S: "0", Sort: SInt, T: types.Typ[types.UntypedNil]}
 	}
 	fc := ce.fc
+	// ghost loop variables: visitedN (set of keys already iterated in map-range loop N), idxN, curN
+	if m := reLoopGhost.FindStringSubmatch(name); m != nil {
+		n, _ := strconv.Atoi(m[2])
+		var k any
+		switch m[1] {
+		case "visited":
+			k = rangeVisKey{n}
+		case "idx":
+			k = rangeIdxKey{n}
+		case "cur":
+			k = rangeCurKey{n}
+		}
+		if v, ok := ce.st.vars[k]; ok {
+			return v
+		}
+		ce.fail("loop ghost variable %s is not available here", name)
+	}
 	// locals of the function under verification
 	if ce.scopePos.IsValid() && fc.pkg.Types != nil {
 		if sc := fc.pkg.Types.Scope().Innermost(ce.scopePos); sc != nil {
@@ -758,3 +776,5 @@ func (ce *cenv) havocObject(x Term) {
 }
 
 var _ = constant.MakeBool
+
+var reLoopGhost = regexp.MustCompile(`^(visited|idx|cur)(\d+)$`)
